@@ -158,6 +158,8 @@ def send_strings(s):
 
 
 def all_sends(c):
+    if c["k"] == "loop":
+        return [s for m in c["msgs"] for s in m["sends"]]
     return c["sends"] if c["k"] == "case" else [s for ss in c["senders"] for s in ss]
 
 
@@ -465,6 +467,69 @@ class GatedRaw:
         pass
 
 
+class LoopRaw:
+    """stands for sys.stdout.buffer under the real StdoutWriter while the REAL read loop runs: logs
+    every write/flush with the thread that made it and the handler-context send it belongs to, and
+    knows which bytes have been flushed (the flushed prefix of everything written)."""
+    def __init__(self):
+        self.lock = threading.Lock()
+        self.log = []
+        self.total = 0
+        self.flushed = 0
+        self.last_end = {}
+        self.tag = threading.local()
+        self.closed = False
+    def write(self, data):
+        with self.lock:
+            self.total += len(data)
+            tid = threading.get_ident()
+            self.last_end[tid] = self.total
+            self.log.append([tid, getattr(self.tag, "v", None), "w", bytes(data).hex()])
+        return len(data)
+    def flush(self):
+        with self.lock:
+            self.flushed = self.total
+            self.log.append([threading.get_ident(), getattr(self.tag, "v", None), "f"])
+    def pending(self, tid=None):
+        """bytes written by that thread (default: anyone) that are not flushed yet"""
+        with self.lock:
+            end = self.total if tid is None else self.last_end.get(tid, 0)
+            return max(0, end - self.flushed)
+    def close(self):
+        self.closed = True
+
+
+class LoopStdin:
+    """stands for sys.stdin.buffer: serves the scripted frames, then holds EOF back until the
+    scripted handlers are done.  Looking up `readline` is what the read loop does when it goes back
+    to reading: when that happens on the loop thread, the loop thread's unflushed bytes are sampled."""
+    def __init__(self, data, raw, loop_tid, finished):
+        self.data, self.pos, self.raw, self.loop_tid, self.finished = data, 0, raw, loop_tid, finished
+        self.samples = []
+    @property
+    def readline(self):
+        if threading.get_ident() == self.loop_tid:
+            self.samples.append(self.raw.pending(self.loop_tid))
+        return self._readline
+    def _readline(self):
+        if self.pos >= len(self.data):
+            end = time.time() + TMO
+            while not self.finished() and time.time() < end:
+                time.sleep(0.002)
+            return b""
+        j = self.data.find(b"\n", self.pos)
+        j = len(self.data) if j < 0 else j + 1
+        out = self.data[self.pos:j]
+        self.pos = j
+        return out
+    def read(self, n):
+        out = self.data[self.pos:self.pos + n]
+        self.pos += len(out)
+        return out
+    def close(self):
+        pass
+
+
 def make_protocol(flavour):
     if flavour == "lsp":
         from pygls.lsp.server import LanguageServer
@@ -500,8 +565,8 @@ class C03(core.Property):
                    "spec_decode_frames", "send_data_tree", "do_send_frames", "sender_stream_decodes",
                    "escape_roundtrip", "scalar_pairfree", "read_value_dumps", "loads_dumps",
                    "interleave_flat_map", "interleave_map_inv", "merge_of_atomic_writes", "run_schedule_interleave",
-                   "flush_last", "sent_trees_expected", "sender_reads_back", "C03", "C03_reference_agrees",
-                   "C03_schedules_covered", "C03_pairfree_necessary", "C03_scalar_strings_ok", "C03_nonvacuous"]
+                   "flush_last", "send_ops_context_free", "flushed_when_send_returns", "sent_trees_expected", "sender_reads_back", "C03", "C03_reference_agrees",
+                   "C03_schedules_covered", "C03_refuted_nonatomic_write", "C03_pairfree_necessary", "C03_scalar_strings_ok", "C03_nonvacuous"]
     coq_targets = ["Props/C03.vo", "Extract/ExtractC03.vo"]
     rule = ("a case is a configuration (protocol flavour, writer kind, include_headers) and a list of sending calls "
             "(_send_response result / error, notify, send_request, raw _send_data) or several senders plus a schedule "
@@ -698,6 +763,52 @@ class C03(core.Property):
         sched = [rng.randint(0, n - 1) for _ in range(rng.randint(0, total + 2))]
         return {"k": "sched", "fl": rng.choice(["rpc", "lsp"]), "w": w, "h": True, "senders": senders, "sched": sched}
 
+    def hsend(self, rng, i, k):
+        """a send a handler makes: a notification or a request, recognisable"""
+        tag = {"o": [[S("msg")["s"], i], [S("seq")["s"], k], [S("v")["s"], self.rtree(rng, 1, special=False)]]}
+        if rng.random() < 0.7:
+            return {"t": "notif", "method": S("h/progress")["s"], "params": tag}
+        return {"t": "req", "id": S("q%d-%d" % (i, k)), "method": S("h/ask")["s"], "params": tag}
+
+    def loop_scenarios(self):
+        """(a) sync request / notification handler under run_async and run, (b) async handler after an
+        await, (c) pool-thread handler sending while the loop thread is held inside another handler,
+        (d) the replies themselves"""
+        n = lambda i, k: {"t": "notif", "method": S("h/progress")["s"],
+                          "params": {"o": [[S("msg")["s"], i], [S("seq")["s"], k], [S("v")["s"], S("é\U0001F60B")]]}}
+        r = lambda i, k: {"t": "req", "id": S("q%d-%d" % (i, k)), "method": S("h/ask")["s"],
+                          "params": {"o": [[S("msg")["s"], i], [S("seq")["s"], k]]}}
+        out = []
+        for fl in ("rpc", "lsp"):
+            for loop in ("async", "sync"):
+                out.append({"k": "loop", "fl": fl, "loop": loop, "msgs": [
+                    {"kind": "sync", "sends": [n(0, 0), r(0, 1)], "result": S("s")},
+                    {"kind": "nsync", "sends": [n(1, 0)], "result": None},
+                    {"kind": "sync", "sends": [], "result": [1, None]}]})
+            out.append({"k": "loop", "fl": fl, "loop": "async", "msgs": [
+                {"kind": "async", "sends": [n(0, 0), n(0, 1)], "result": S("a")},
+                {"kind": "sync", "sends": [n(1, 0)], "result": 1}]})
+            out.append({"k": "loop", "fl": fl, "loop": "async", "msgs": [
+                {"kind": "thread", "sends": [n(0, 0)], "result": S("t")},
+                {"kind": "hold", "sends": [n(1, 0)], "result": S("s")}]})
+            out.append({"k": "loop", "fl": fl, "loop": "async", "msgs": [
+                {"kind": "thread", "sends": [r(0, 0), n(0, 1)], "result": S("t")},
+                {"kind": "sync", "sends": [], "result": None}]})
+        return out
+
+    def rloop(self, rng):
+        loop = rng.choice(["async", "async", "sync"])
+        kinds = ["sync", "nsync", "sync"] + (["async", "thread"] if loop == "async" else [])
+        msgs = []
+        for i in range(rng.randint(1, 4)):
+            kind = rng.choice(kinds)
+            msgs.append({"kind": kind, "sends": [self.hsend(rng, i, k) for k in range(rng.choice([0, 1, 1, 2, 3]))],
+                         "result": None if kind == "nsync" else self.rtree(rng, 2, special=False)})
+        if loop == "async" and any(m["kind"] == "thread" for m in msgs) and rng.random() < 0.6:
+            i = len(msgs)
+            msgs.append({"kind": "hold", "sends": [self.hsend(rng, i, 0)], "result": S("held")})
+        return {"k": "loop", "fl": rng.choice(["rpc", "lsp"]), "loop": loop, "msgs": msgs}
+
     def sched_scope(self):
         """two senders with one and two messages, every schedule of their operations (both writers)"""
         import itertools
@@ -743,6 +854,10 @@ class C03(core.Property):
         cases.extend(scope if not chk.quick else rng.sample(scope, 24))
         for _ in range(chk.n(40, 1500)):
             cases.append(self.rsched(rng))
+        # sends made inside handlers under the real read loops
+        cases.extend(self.loop_scenarios())
+        for _ in range(chk.n(40, 600)):
+            cases.append(self.rloop(rng))
         # keep a few small cases last (evidence samples are taken from both ends)
         cases.extend(self.boundary_cases()[:2])
         return cases
@@ -754,7 +869,7 @@ class C03(core.Property):
         for c in cases:
             try:
                 out.append(self.run_case(c) if c["k"] == "case" else self.run_sched(c) if c["k"] == "sched"
-                           else self.run_other(chk, c))
+                           else self.run_loop(c) if c["k"] == "loop" else self.run_other(chk, c))
             except Exception as ex:
                 out.append(["raise", type(ex).__name__])
         return out
@@ -819,6 +934,133 @@ class C03(core.Property):
                 per.append(log[k:])
         return {"sends": per}
 
+    def run_loop(self, c):
+        """Sends made where they really happen: inside request / notification handlers running under
+        the real read loop (server.start_io -> run_async, or pygls.io_.run), real StdoutWriter.
+        Observed per handler-context send: the transport operations made during the call and how many
+        of the sender's bytes are NOT flushed at the moment the call returns."""
+        from pygls import io_
+        p = make_protocol(c["fl"])
+        server = p._server
+        raw = LoopRaw()
+        loop_tid = threading.get_ident()
+        msgs = c["msgs"]
+        hs, errs = [], []
+        state = {"done": 0}
+        lock = threading.Lock()
+        busy = threading.Event()
+        threads_done = threading.Semaphore(0)
+        nthread = sum(1 for m in msgs if m["kind"] == "thread")
+        has_hold = any(m["kind"] == "hold" for m in msgs)
+        nreq = sum(1 for m in msgs if m["kind"] != "nsync")
+
+        def sends_of(i):
+            m = msgs[i]
+            for k, s_ in enumerate(m["sends"]):
+                raw.tag.v = (i, k)
+                try:
+                    perform(p, s_)
+                finally:
+                    raw.tag.v = None
+                # the sending call has returned: are this thread's bytes on the underlying stream?
+                pend = raw.pending(threading.get_ident())
+                with lock:
+                    hs.append([i, k, pend])
+
+        def finish(i):
+            with lock:
+                state["done"] += 1
+            return to_py(msgs[i]["result"])
+
+        def h_sync(params):
+            i = params.i
+            sends_of(i)
+            return finish(i)
+
+        def h_nsync(params):
+            sends_of(params.i)
+            finish(params.i)
+
+        def h_hold(params):
+            i = params.i
+            sends_of(i)
+            busy.set()                      # the loop thread stays inside this handler ...
+            for _ in range(nthread):        # ... until every pool-thread handler has sent
+                threads_done.acquire(timeout=TMO)
+            return finish(i)
+
+        async def h_async(params):
+            i = params.i
+            await asyncio.sleep(0)
+            sends_of(i)
+            await asyncio.sleep(0)
+            return finish(i)
+
+        def h_thread(params):
+            i = params.i
+            try:
+                if has_hold:
+                    busy.wait(TMO)
+                sends_of(i)
+            finally:
+                threads_done.release()
+            return finish(i)
+
+        server.feature("h/sync")(h_sync)
+        server.feature("h/nsync")(h_nsync)
+        server.feature("h/hold")(h_hold)
+        server.feature("h/async")(h_async)
+        server.thread()(h_thread)
+        server.feature("h/thread")(h_thread)
+
+        data = b""
+        for i, m in enumerate(msgs):
+            obj = {"jsonrpc": "2.0", "method": "h/" + m["kind"], "params": {"i": i}}
+            if m["kind"] != "nsync":
+                obj["id"] = "in-%d" % i
+            body = json.dumps(obj).encode()
+            data += b"Content-Length: %d\r\n\r\n" % len(body) + body
+
+        def finished():
+            with lock:
+                if state["done"] < len(msgs):
+                    return False
+            with raw.lock:
+                nrep = sum(1 for e in raw.log if e[1] is None and e[2] == "w")
+            return nrep >= nreq
+        stdin = LoopStdin(data, raw, loop_tid, finished)
+        try:
+            if c["loop"] == "async":
+                server.start_io(stdin, raw)
+            else:
+                p.set_writer(io_.StdoutWriter(raw))
+                try:
+                    io_.run(threading.Event(), stdin, p, None, server._report_server_error)
+                finally:
+                    server.shutdown()
+        except SystemExit:
+            pass
+        finally:
+            asyncio.set_event_loop(None)
+        with raw.lock:
+            log = list(raw.log)
+        pend = {(i, k): v for i, k, v in hs}
+        hsends = []
+        for i, m in enumerate(msgs):
+            for k in range(len(m["sends"])):
+                ops = [e[2:] for e in log if e[1] == (i, k)]
+                hsends.append([i, k, ops, pend.get((i, k), -1)])
+        groups, cur = [], {}
+        for e in log:
+            if e[1] is None:
+                cur.setdefault(e[0], []).append(e[2:])
+                if e[2] == "f":
+                    groups.append(cur.pop(e[0]))
+        groups += list(cur.values())
+        stream = "".join(e[3] for e in log if e[2] == "w")
+        return {"hsends": hsends, "replies": sorted(groups), "read_pending": max(stdin.samples or [0]),
+                "end_pending": raw.pending(), "stream": stream}
+
     def run_sched(self, c):
         from pygls.io_ import StdoutWriter
         p = make_protocol(c["fl"])
@@ -862,6 +1104,17 @@ class C03(core.Property):
         return {"ops": g.log}
 
     # ---------------- model ----------------
+    @staticmethod
+    def loop_sends(c):
+        """the sends of a loop case in canonical order: per incoming message its handler's sends, then
+        the reply to it"""
+        out = []
+        for i, m in enumerate(c["msgs"]):
+            out.extend(m["sends"])
+            if m["kind"] != "nsync":
+                out.append({"t": "resp", "id": S("in-%d" % i), "result": m["result"]})
+        return out
+
     def model_input(self, c):
         k = c["k"]
         if k == "escape":
@@ -875,6 +1128,8 @@ class C03(core.Property):
                 return "loads 1 0"
         if k == "oracle-roundtrip":
             return "roundtrip " + tok_str(c["s"])
+        if k == "loop":
+            return "case 2 1 " + tok_sends(self.loop_sends(c))
         if k not in ("case", "sched"):
             return "dumps 0"
         cfg = f"{WR[c['w']]} {1 if c['h'] else 0}"
@@ -896,7 +1151,7 @@ class C03(core.Property):
             return {"M": None if t[0] == "0" else hx(t[1]), "S": None, "guard": True}
         if k == "oracle-roundtrip":
             return {"M": t[1] == "1", "S": None, "guard": True}
-        if k not in ("case", "sched"):
+        if k not in ("case", "sched", "loop"):
             return {"M": "ok", "S": "ok", "guard": True}
         it = iter(t)
         nxt = lambda: next(it)
@@ -908,6 +1163,21 @@ class C03(core.Property):
         def expects():
             return [[int(nxt()), hexs()] for _ in range(int(nxt()))]
         guard = nxt() == "1"
+        if c["k"] == "loop":
+            per = [[op() for _ in range(int(nxt()))] for _ in range(int(nxt()))]
+            exp = expects()
+            if nxt() != "1" or not guard or len(exp) != len(per):
+                raise RuntimeError("loop case outside the guard / model self-check failed")
+            hsends, replies, groups, q = [], [], [], 0
+            for i, m in enumerate(c["msgs"]):
+                g = []
+                for k_ in range(len(m["sends"])):
+                    hsends.append([i, k_, per[q], 0]); g.append(exp[q]); q += 1
+                if m["kind"] != "nsync":
+                    replies.append(per[q]); g.append(exp[q]); q += 1
+                groups.append(g)
+            M = {"hsends": hsends, "replies": sorted(replies), "read_pending": 0, "end_pending": 0}
+            return {"M": M, "S": {"groups": groups}, "guard": True, "klass": None}
         if c["k"] == "case":
             M = {"sends": [[op() for _ in range(int(nxt()))] for _ in range(int(nxt()))]}
             exp = expects()
@@ -947,6 +1217,27 @@ class C03(core.Property):
             return False
 
     def satisfies(self, c, impl, S):
+        if c["k"] == "loop":
+            if not isinstance(impl, dict):
+                return False
+            # (v) in context: when a sending call made inside a handler returns, the sender's bytes are
+            # flushed; when the loop goes back to reading and at the end nothing is left buffered
+            if any(h[3] != 0 for h in impl["hsends"]) or impl["read_pending"] != 0 or impl["end_pending"] != 0:
+                return False
+            bodies = py_decode(bytes.fromhex(impl["stream"]))
+            if bodies is None:
+                return False
+            flat = [e for g in S["groups"] for e in g]
+            def cls(b):
+                for j, e in enumerate(flat):
+                    if self.match_expect(b, e):
+                        return min(q for q, f in enumerate(flat) if f == e)
+                return -1
+            seq = [cls(b) for b in bodies]
+            if -1 in seq:
+                return False
+            lists = [[min(q for q, f in enumerate(flat) if f == e) for e in g] for g in S["groups"]]
+            return is_merge(tuple(seq), lists)
         if c["k"] not in ("case", "sched"):
             return impl == S
         if not isinstance(impl, dict):
@@ -997,9 +1288,13 @@ class C03(core.Property):
         return is_merge(tuple(seq), lists)
 
     def same(self, c, impl, M):
+        if c["k"] == "loop" and isinstance(impl, dict):
+            return {k: v for k, v in impl.items() if k != "stream"} == M
         return impl == M
 
     def nontrivial(self, c):
+        if c["k"] == "loop":
+            return any(m["sends"] for m in c["msgs"])
         if c["k"] not in ("case", "sched"):
             return True
         if c["k"] == "sched":
@@ -1053,6 +1348,19 @@ class C03(core.Property):
             if "id" in s and s["id"] != 1:
                 d = dict(s); d["id"] = 1
                 yield d
+        if c["k"] == "loop":
+            ms = c["msgs"]
+            for i in range(len(ms)):
+                if len(ms) > 1 and not (ms[i]["kind"] == "hold" and any(m["kind"] == "thread" for m in ms)):
+                    d = dict(c); d["msgs"] = ms[:i] + ms[i + 1:]
+                    yield d
+            for i in range(len(ms)):
+                for k_ in range(len(ms[i]["sends"])):
+                    if len(ms[i]["sends"]) > 1:
+                        m2 = dict(ms[i]); m2["sends"] = ms[i]["sends"][:k_] + ms[i]["sends"][k_ + 1:]
+                        d = dict(c); d["msgs"] = ms[:i] + [m2] + ms[i + 1:]
+                        yield d
+            return
         if c["k"] not in ("case", "sched"):
             return
         if c["k"] == "case":
@@ -1091,7 +1399,7 @@ class C03(core.Property):
         bounded scope: every boundary string x the four message kinds x three writers, and every
         schedule of two concurrent senders at the granularity of one transport call (the gating
         writer: a frame emitted in more than one call is torn by one of these schedules)."""
-        cases = self.boundary_cases() + self.sched_scope()
+        cases = self.loop_scenarios() + self.boundary_cases() + self.sched_scope()
         res = core.evaluate(self, chk, cases)
         return [r for r in res if r["verdict"] == "violation"][:1]
 
@@ -1419,9 +1727,19 @@ class C03(core.Property):
             complete = bodies is not None and len(bodies) == nthreads * per
             if bodies is None and len(got) >= nthreads * per * one:
                 torn += 1
-                out.append({"case": {"k": "tcp-thread-stress", "threads": nthreads, "messages_each": per, "payload_bytes": size},
-                            "impl": {"torn": True, "bytes": len(got), "errors": errs[:3]},
-                            "S": "whole frames", "verdict": "violation"})
+                rec = {"case": {"k": "tcp-thread-stress", "threads": nthreads, "messages_each": per, "payload_bytes": size},
+                       "impl": {"torn": True, "bytes": len(got), "errors": errs[:3]},
+                       "S": "whole frames", "verdict": "violation"}
+                known = [k for k in core.load_known() if k.get("property") == "C03" and k.get("status") == "known"
+                         and k.get("class") == "F-C03-streamwriter-from-pool-thread"]
+                if known:
+                    # the recorded finding, reproduced (it is a race: it shows up in a minority of runs)
+                    rec["verdict"] = "known:F-C03-streamwriter-from-pool-thread"
+                    path = core.write_replay(self, rec)
+                    print(f"KNOWN-FINDING: property=C03 F-C03-streamwriter-from-pool-thread: {known[0]['what']} (replay={path})")
+                    cov["known_findings_reproduced_by_stress"] = ["F-C03-streamwriter-from-pool-thread"]
+                else:
+                    out.append(rec)
             elif not complete:
                 incomplete += 1
                 chk.notes.append(f"tcp stress inconclusive: {len(got)} bytes, errors {errs[:2]}")
@@ -1439,9 +1757,14 @@ class C03(core.Property):
     def distribution(self, cases):
         d = {}
         for c in cases:
-            if c["k"] not in ("case", "sched"):
+            if c["k"] not in ("case", "sched", "loop"):
                 continue
-            key = f"{c['k']}/{c['fl']}/{c['w']}/{'hdr' if c['h'] else 'nohdr'}"
+            if c["k"] == "loop":
+                key = f"loop/{c['fl']}/{c['loop']}"
+                for m in c["msgs"]:
+                    d["handler/" + m["kind"]] = d.get("handler/" + m["kind"], 0) + 1
+            else:
+                key = f"{c['k']}/{c['fl']}/{c['w']}/{'hdr' if c['h'] else 'nohdr'}"
             d[key] = d.get(key, 0) + 1
             for s in all_sends(c):
                 d["send/" + s["t"]] = d.get("send/" + s["t"], 0) + 1
